@@ -1321,7 +1321,7 @@ fn gen_c04(o: &mut Out, r: &mut Rng, d: &GDict, tier: &str) {
     // are decoded, displayed and re-encoded here: none of that may wait for it
     {
         o.case("decode while the default dictionary is being written");
-        o.line("gdstorm 1500");
+        o.line(&format!("gdstorm {}", if thorough { 15000 } else { 1500 }));
         for _ in 0..(if thorough { 20000 } else { 1500 }) {
             let m = message(r, d, 4, 4);
             o.line(&format!("decq {}", hex(&m.encode(&mut None))));
